@@ -33,5 +33,5 @@ class JSON:
         indent = int_arg(indent) if indent else None
         try:
             return json.dumps(obj, default=self.default, indent=indent)
-        except OverflowError as err:
+        except (OverflowError, ValueError) as err:
             raise FilterArgumentError(f"json: {err}", token=None) from err
